@@ -298,7 +298,17 @@ func (r *Reader) newBlockReader(nextOff uint64, wantTyp byte) (br *blockReader, 
 		headerOff = uint32(headerSize(r.version))
 	}
 
-	return newBlockReader(block, headerOff, r.header.BlockSize, r.hashSize)
+	br, err = newBlockReader(block, headerOff, r.header.BlockSize, r.hashSize)
+	for err == io.ErrUnexpectedEOF && blockTyp == blockTypeLog && nextOff+uint64(len(block)) < r.size {
+		// The zlib stream of a log block may be longer than both
+		// the table's block size and the inflated size. Read more.
+		block, err = r.getBlock(nextOff, 2*uint32(len(block)))
+		if err != nil {
+			return nil, err
+		}
+		br, err = newBlockReader(block, headerOff, r.header.BlockSize, r.hashSize)
+	}
+	return br, err
 }
 
 // nextBlock moves to the next block, or returns false fi there is none.
